@@ -23,7 +23,7 @@ from .common import Check, sx, forbidden_scan, PY, VERIF, REPO
 TRUSTED = [
     "Coq 8.16.1 kernel (coqc); vm_compute only in Examples / _refuted witnesses",
     "Print Assumptions: every C02 theorem closed under the global context (no axioms)",
-    "translator harness/c02.py:generate (Python ast): is_adverb set, get_adverb_arity table, get_adverb_fn dispatch, shortcut tables of eval_adverb_over / eval_adverb_scan_over",
+    "translator harness/c02.py:generate (Python ast): is_adverb set, get_adverb_arity table, get_adverb_fn dispatch, shortcut tables and zero-divisor guard of eval_adverb_over / eval_adverb_scan_over, the compiler's _REDUCE_SCAN_OPS and reduce/scan text tables, the While / Scan-While loop tests",
     "extraction: ExtrOcamlBasic only; Z kept as inductive; ocaml/driver.ml",
     "correspondence harness: harness/c02.py, harness/c02_child.py (expansion oracle mirrors coq/C02/Spec.v), its own canonical form (strings = lists of characters)",
 ]
@@ -39,6 +39,9 @@ ASSUME = [
     "the verb semantics used by the extracted model cover integers, binary64 reals, nested numeric lists, characters and strings under Join; NumPy "
     "broadcasting of unequal shapes, Equal on reals, arithmetic on characters, :undefined as a value are not modelled (such cases are still "
     "checked text-vs-expansion on the implementation)",
+    "a single Over / Scan-Over of + * | & over a variable or function argument may be run by the expression compiler: modelled from "
+    "compiler.py _REDUCE_SCAN_OPS, _compiled_args' admission and the backend's reduce/scan text tables (regenerated); other compiled expressions "
+    "(arithmetic inside the verbs) are C05's subject",
     "domain decisions where the reference is silent (the specification follows the implementation): Each-2 of an atom with a list (a number "
     "cannot be paired: error; a character is its one-character string; a dictionary stands for its keys), Each-Index of an atom (f([0;a])), "
     "Scan-Iterating with count 0 (b itself), a f\\[] (a itself, as the reference test-suite has it)",
@@ -393,6 +396,10 @@ def universe(tier, rng):
             if adv in ("converge", "scanconv") and v in GROW1:
                 continue
             operands = NUM if arithmetic else ALLOPS
+            if v == "*" and ar == 1 and adv in ("converge", "scanconv"):
+                # First of a string is a character, and klongpy's Match calls a character and its one-character string
+                # equal (C01's subject) while Converge's own test does not: numeric operands only
+                operands = [a for a in operands if is_num(a)]
             if v == "Lnewton":
                 # Newton's iteration for the square root of 2 (the reference's Converge example): positive starts only
                 operands = [2, 2.0, 9, 0.5]
@@ -635,7 +642,7 @@ def classify(chk, c, o, m):
                 corr = "model gives a value, implementation %s" % t[0]
             elif mv != t:
                 corr = "model and implementation give different values"
-            elif c["verb"] not in OPS and not outside and not eerr and model_calls(m) != impl_calls(o["eapps"]):
+            elif c["verb"] not in OPS and not outside and not eerr and not prop and model_calls(m) != impl_calls(o["eapps"]):
                 corr = "model's applications of the verb differ from the expansion's"
             else:
                 chk.count("model_agrees")
@@ -735,6 +742,9 @@ def run(tier, replay=None):
             corrs.append((corr, c, o, m))
         if nontrivial and not prop and not corr:
             chk.sample({"text": o["text"], "result": sx(o["t"])[:120], "expansion_applications": len(o["eapps"])}, limit=8)
+    if os.environ.get("VERIF_DEBUG"):
+        for what, c, o, m in props + corrs:
+            print("DEBUG", what, "|", o.get("text"), "|", sx(o.get("t"))[:90], "|", sx(o.get("e"))[:90], "|", sx(m)[:120], flush=True)
     # property failures: one VIOLATION per class (adverb, what)
     shown = set()
     for prop, c, o, m in props:
@@ -777,5 +787,10 @@ def replay(path):
     o = run_children([dict(c, id=0)], nproc=1)[0]
     print("text      :", o["text"])
     print("actual    :", sx(o["t"]))
+    for key in ("tv", "tf"):
+        if key in o:
+            print("text      :", o[key + "_text"])
+            print("actual    :", sx(o[key]))
     print("expected  :", sx(o["e"]), "(the expansion, as separately evaluated applications)")
-    return 0 if o["tn"] == o["en"] else 1
+    ok = o["tn"] == o["en"] and all(o.get(k + "n", o["en"]) == o["en"] for k in ("tv", "tf"))
+    return 0 if ok else 1
